@@ -395,7 +395,7 @@ def run_trial(subj: Subject, cycles: list[list[str]], work: Path, own: dict[str,
 # ================================================================================================ inputs
 DEFAULT_OPTS = dict(layout='v20', compress=(), origin_vertex=True, faceids='full', water=True, overlay_aux=True, vis=True,
                     n_extra=1, extra_game=False, compress_game=(), fractional_bounds=False, detail_shapes=False, hdr=True, bad=(),
-                    aux='normal')
+                    aux='normal', adv=True)
 VARIANTS: list[dict] = (
     [dict(layout=l) for l in c10_util.LAYOUTS]
     + [dict(compress=('ENTITIES', 'PLANES', 'LEAFS', 'LIGHTING', 'FACES', 'TEXDATA_STRING_DATA')),
@@ -403,7 +403,8 @@ VARIANTS: list[dict] = (
        dict(compress_game=('dprp',)), dict(compress_game=('sprp', 'dprp', 'xtra'), extra_game=True),
        dict(extra_game=True), dict(layout='l4d2', compress=('ENTITIES', 'BRUSHES'), compress_game=('dprp',)),
        dict(n_extra=0), dict(n_extra=2, layout='v21'), dict(water=False), dict(overlay_aux=False), dict(vis=False),
-       dict(hdr=False), dict(faceids='zeros'), dict(faceids='empty'), dict(faceids='short'), dict(origin_vertex=False),
+       dict(hdr=False), dict(faceids='zeros'), dict(faceids='empty'), dict(faceids='short'), dict(faceids='long'), dict(origin_vertex=False),
+       dict(adv=False),
        dict(layout='chaos', fractional_bounds=True), dict(detail_shapes=True)]
     # side lumps (cleared by a look, restored only by the view's writer) at the values where they LOOK unused
     + [dict(aux='zero'), dict(aux='default'), dict(aux='mixed'), dict(aux='maxed'), dict(aux='absent'),
@@ -426,6 +427,31 @@ def make_subject(work: Path, opts: dict, seed: int, tag: str) -> Subject:
     subj = Subject('synth:' + ','.join(f'{k}={v}' for k, v in sorted(opts.items())) or 'synth:default', p, dict(opts=opts, seed=seed))
     subj.parts = desc['_parts']
     return subj
+
+
+def derive_sample(work: Path) -> Subject | None:
+    """The bundled map with its texture name table made adversarial (it has a single name): the table gets, after the
+    names of the file, a longer name and then a prefix, an inner substring and a tail of it, each stored in full, plus a
+    second entry for the first name.  No texdata refers to the new entries (a name table may hold unused names)."""
+    from srctools.bsp import BSP_LUMPS
+    dec = c10_util.decode_container(SAMPLE.read_bytes())
+    if 'error' in dec:
+        return None
+    sd, st = BSP_LUMPS.TEXDATA_STRING_DATA.value, BSP_LUMPS.TEXDATA_STRING_TABLE.value
+    data, table = dec['lumps'][sd]['data'], dec['lumps'][st]['data']
+    first = struct.unpack_from('<i', table, 0)[0] if len(table) >= 4 else 0
+    base = data[first:data.index(b'\0', first)] if data else b'dev/devmeasuregeneric01'
+    for nm in (base + b'_-128_64_32', base, base[1:], base[2:-2], b'_-128_64_32'):
+        table += struct.pack('<i', len(data))
+        data += nm + b'\0'
+    table += struct.pack('<i', first)
+    lumps = {i: (l['version'], l['data'], l['fourcc'] > 0) for i, l in dec['lumps'].items()}
+    lumps[sd] = (lumps[sd][0], data, lumps[sd][2])
+    lumps[st] = (lumps[st][0], table, lumps[st][2])
+    games = [(g['id'], g['flags'], g['version'], g['data']) for g in dec['game_lumps']]
+    p = work / 'in_sample_names.bsp'
+    p.write_bytes(c10_util.encode_container(dec['magic'], dec['version'], dec['l4d2'], dec['map_revision'], lumps, games))
+    return Subject('rot_main.bsp+names', p, {'file': 'tests/test_vec/rot_main.bsp', 'derive': 'names'})
 
 
 def input_tag(opts: dict, fails) -> str:
@@ -919,6 +945,9 @@ def run(ck: Ck) -> None:
     subjects: list[Subject] = []
     if SAMPLE.exists():
         subjects.append(Subject('rot_main.bsp', SAMPLE, {'file': 'tests/test_vec/rot_main.bsp'}))
+        derived = derive_sample(work)
+        if derived is not None:
+            subjects.append(derived)
     else:
         ck.notes.append('tests/test_vec/rot_main.bsp missing')
     synth_subjects: list[tuple[dict, Subject]] = []
@@ -1061,6 +1090,10 @@ def run(ck: Ck) -> None:
     t0 = time.time()
     for subj in subjects:       # the sample map (large entity lump: fewer trials)
         attempt(subj, None, [[]])
+        if subj.desc.get('derive') and not ck.budget(0, 1):     # quick tier: the views that rebuild the changed table
+            attempt(subj, None, [['textures']])
+            attempt(subj, None, [['overlays', 'texinfo']])
+            continue
         for v in (VIEWS if ck.budget(0, 1) else rng.sample(VIEWS, 4)):
             attempt(subj, None, [[v]])
         attempt(subj, None, [list(VIEWS)])
@@ -1119,7 +1152,9 @@ def replay(data: dict) -> int:
     r = data['replay']
     with tempfile.TemporaryDirectory(dir='/var/tmp') as td:
         work = Path(td)
-        if 'file' in r.get('input', {}):
+        if r.get('input', {}).get('derive') == 'names':
+            subj = derive_sample(work)
+        elif 'file' in r.get('input', {}):
             subj = Subject('rot_main.bsp', REPO / r['input']['file'], r['input'])
         elif 'opts' in r.get('input', {}):
             opts = {k: tuple(v) if isinstance(v, list) else v for k, v in r['input']['opts'].items()}
